@@ -464,6 +464,8 @@ from tverif.interp import GhostIterable
 class GenericGateOfAnyCircuit(GhostIterable):
     """source_circuit._gates of unknown length: one generic iteration on `gate`, with an opaque translated prefix"""
 
+    managed = ("target_circuit", "measure_count")      # the loop-carried state described by this invariant (anything else carried across iterations -> undecided)
+
     def __init__(self, h, gate, n, lib):
         self.h, self.gate, self.n, self.lib = h, gate, n, lib
         self.before = snapshot(gate.__dict__)
